@@ -1106,6 +1106,32 @@ def gen_c16(ctx, n, fol=True):
     return scs, meta
 
 
+def gen_c16_propagation(rng, n):
+    """rows that reach a predicate T only because another formula propagates its groundings to it, while no bound moves
+    in that step: a formula over T that is visited EARLIER in the pass sees them one step later; run 1 has to take that
+    further step exactly as run 2 (which starts with the rows in place) does"""
+    P1 = [F(1), F(1), [], 1]
+    scs, meta = [], []
+    for _ in range(n):
+        P2 = [F(1), F(1), [F(1), F(1)], rng.choice([0, 1])]
+        kb = [[0, [], [], 1, list(P1), []] for _ in range(3)]                 # 0: U, 1: T, 2: S
+        kb.append([1, [1], [[0]], 1, list(P1), [[0]]])                           # 3: Not(T(x))
+        first = rng.choice([3, 3, 1])                                           # antecedent of the rule: Not(T(x)) or T(x)
+        kb.append([4, [first, 2], [[0], [0]], 1, list(P2), [[0], [0]]])          # 4: first(x) -> S(x)
+        kb.append([rng.choice([2, 3, 3, 4]), [0, 1], [[0], [0]], 1, list(P2), [[0], [0]]])   # 5: U(x) op T(x)
+        worlds = [gen_fol.OPEN, rng.choice([gen_fol.CLOSED, gen_fol.CLOSED, gen_fol.AXIOM]), gen_fol.OPEN, gen_fol.OPEN,
+                  rng.choice([gen_fol.AXIOM, gen_fol.AXIOM, gen_fol.OPEN]), rng.choice([gen_fol.OPEN, gen_fol.OPEN, gen_fol.AXIOM])]
+        roots = rng.choice([[4, 5], [4, 5], [5, 4], [3, 5, 4]])
+        consts = rng.sample(range(3), rng.choice([1, 2, 3]))
+        data = [[0, [[[c], rng.choice([[F(0), F(1)], [F(0), F(1)], [F(1), F(1)], gen_fol.rnd_fact(rng, 0.2)])] for c in consts]]]
+        if rng.random() < 0.3:
+            data.append([2, [[[rng.randrange(3)], gen_fol.rnd_fact(rng)]]])
+        ops = [[5, -1, 30], [9], [7], [5, -1, 30], [7], [5, -1, 30]]
+        scs.append([40, kb, roots, worlds, data, ops, 0, 3])
+        meta.append({"nobj": 6, "kinds": [0, 1, 3, 4], "hetero": False, "maxar": 1})
+    return scs, meta
+
+
 CHECKS.update({"C02": check_C02})
 
 
@@ -1120,6 +1146,8 @@ def check_C16(ctx):
     meta.insert(0, {"nobj": 3, "kinds": [0, 2], "hetero": False, "maxar": 2})
     run_fol(ctx, "K6 run 1 / reset_bounds / run 2 / reset_bounds / run 3 on first-order KBs", scs, ["fol_c16", "fol_c15"], hashseeds=(0,))
     ctx.cov["distribution"] = fdist(meta)
+    scs2, meta2 = gen_c16_propagation(ctx.rng("c16prop"), 150 if ctx.quick else 2000)
+    run_fol(ctx, "K6 run 1 / reset / run 2 where groundings reach a predicate by propagation without any bound moving", scs2, ["fol_c16", "fol_c15"], hashseeds=(0,))
     try:
         import checks_prop
         checks_prop.c16_prop_part(ctx)
